@@ -24,7 +24,8 @@ ByteClasses == {"nul", "del", "x80", "xc3", "xff", "quote", "backslash", "lbrack
                 "utf8_2", "utf8_3", "utf8_4"}           \* well-formed 2-, 3- and 4-byte characters
 Positions == {0, 1, 5, 10, 25, 33, 50, 66, 75, 90, 95, 99, 1000}       \* per-mille of the seed length (1000 = at the end)
 Ops == {"identity", "truncate", "flip", "insert", "delete", "duplicate_tail", "nest", "long_line", "repeat_delim",
-        "eol", "eol_truncate"}      \* every CRLF of the seed replaced by the class byte (LF-only / CR-only documents), then cut
+        "eol", "eol_truncate",
+        "repeat_seed", "repeat_head"}   \* the whole seed / its first at-percent repeated n times: many parts, lines, elements      \* every CRLF of the seed replaced by the class byte (LF-only / CR-only documents), then cut
 
 \* the abstract mutation space of one entry point with nseeds seed documents
 Mutations(ep, nseeds) ==
@@ -34,6 +35,8 @@ Mutations(ep, nseeds) ==
     \cup {[ep |-> ep, seed |-> s, op |-> o, at |-> p, cls |-> c, all |-> FALSE] : s \in 1..nseeds, o \in {"flip", "insert"}, p \in Positions, c \in ByteClasses}
     \cup {[ep |-> ep, seed |-> s, op |-> o, at |-> p, cls |-> "letter", all |-> FALSE] : s \in 1..nseeds, o \in {"delete", "duplicate_tail"}, p \in Positions}
     \cup {[ep |-> ep, seed |-> s, op |-> "eol", at |-> 0, cls |-> c, all |-> FALSE] : s \in 1..nseeds, c \in {"lf", "cr", "space", "nul"}}
+    \cup {[ep |-> ep, seed |-> s, op |-> "repeat_seed", at |-> n, cls |-> "letter", all |-> FALSE] : s \in 1..nseeds, n \in {3, 100, 1000}}
+    \cup {[ep |-> ep, seed |-> s, op |-> "repeat_head", at |-> n, cls |-> c, all |-> FALSE] : s \in 1..nseeds, n \in {100, 1000}, c \in {"digit9", "letter", "e"}}
     \cup {[ep |-> ep, seed |-> s, op |-> "eol_truncate", at |-> 0, cls |-> c, all |-> TRUE] : s \in 1..nseeds, c \in {"lf", "cr"}}
     \cup {[ep |-> ep, seed |-> s, op |-> o, at |-> n, cls |-> c, all |-> FALSE] :
             s \in 1..nseeds, o \in {"nest", "long_line", "repeat_delim"}, n \in {10, 1000, 20000}, c \in {"lbracket", "lbrace", "quote", "letter", "comma", "cr", "minus"}}
